@@ -1,9 +1,138 @@
-(** C07 (statements only; proofs in Proofs/QLog.v). *)
-From Coq Require Import ZArith List.
-From AGH Require Import Model.QLogFile Model.QLog.
+(** C07: the query log returns every recorded query exactly once, newest
+    first, with paging.  Only statements here; proofs in Proofs/QLog.v (which
+    rests on the C20 reader theorems of Proofs/QLogFile.v).
+
+    Vocabulary (Proofs/QLog.v): [flat s] = rotated file ++ current file ++
+    ring buffer, oldest first; [flatv s] = the same without the buffer of a
+    log configured with mem_size 0; [keep c p e] = not ignored (host list,
+    client flag) and satisfying cursor and criteria; [vis s p] = filter keep
+    (rev (flatv s)): the visible log, newest first; [hist_ok me lo ops]: the
+    recorded entries have strictly increasing stamps and lines shorter than
+    the entry limit. *)
+From Coq Require Import ZArith NArith List Bool.
+From AGH Require Import Base.Run Model.QLogFile Model.QLog Proofs.QLog.
 Import ListNotations.
 Local Open Scope Z_scope.
 
-Theorem C07_placeholder_sanity : run (Build_config true true 2 [] []) [] = init (Build_config true true 2 [] []).
-Proof. reflexivity. Qed.
-Print Assumptions C07_placeholder_sanity.
+(** Refinement, part 1: after ANY history of add / flush / rotate / clear /
+    configuration change / restart the state is well formed ... *)
+Theorem C07_history_wf : forall me c ops lo, hist_ok me lo ops -> wf me (run c ops).
+Proof. exact wf_run. Qed.
+Print Assumptions C07_history_wf.
+
+(** ... and in every well-formed state a request without cursor, with no
+    search criteria, whose limit covers the log, returns exactly the entries
+    the log holds and may show (not ignored), each once, newest first, whether
+    they sit in memory, in the current file or in the rotated file. *)
+Theorem C07_complete_once_ordered : forall me bf s p,
+  0 < me <= bf -> wf me s ->
+  p_older p = None -> p_crits p = [] -> p_offset p = 0 ->
+  0 < p_limit p -> lenZ (flatv s) <= p_limit p ->
+  (p_scan p <= 0 \/ lenZ (on_disk s) <= p_scan p) ->
+  exists o, search me bf s p = Ok (filter (shown (cfg s)) (rev (flatv s))) o.
+Proof. exact complete_once_ordered. Qed.
+Print Assumptions C07_complete_once_ordered.
+
+(** Refinement, part 2: what each operation does to the log [flat].  An add
+    while enabled appends exactly the entry (the ring buffer drops its oldest
+    entry only when it is full, which with file logging on never happens:
+    C07_add_keeps); flush changes nothing; rotate drops exactly the previous
+    rotated file; clear empties; a configuration change keeps everything; a
+    restart keeps everything when file logging is on, else the disk part. *)
+Theorem C07_op_add_disabled : forall s e, enabled (cfg s) = false -> add s e = s.
+Proof. exact flat_add_disabled. Qed.
+Print Assumptions C07_op_add_disabled.
+
+Theorem C07_op_add : forall s e, enabled (cfg s) = true ->
+  flat (add s e) = on_disk s ++ push (cfg s) (buf s) e.
+Proof. exact flat_add_enabled. Qed.
+Print Assumptions C07_op_add.
+
+Theorem C07_push_room : forall c b e, lenZ b < cap c -> push c b e = b ++ [e].
+Proof. exact push_room. Qed.
+Print Assumptions C07_push_room.
+
+Theorem C07_push_full : forall c b e, lenZ b >= cap c -> push c b e = tl (b ++ [e]).
+Proof. exact push_full. Qed.
+Print Assumptions C07_push_full.
+
+Theorem C07_add_keeps : forall s e,
+  enabled (cfg s) = true -> file_enabled (cfg s) = true -> lenZ (buf s) < cap (cfg s) ->
+  flat (add s e) = flat s ++ [e] /\ lenZ (buf (add s e)) < cap (cfg (add s e)).
+Proof. exact add_file_enabled_keeps. Qed.
+Print Assumptions C07_add_keeps.
+
+Theorem C07_op_flush : forall s, flat (flush s) = flat s.
+Proof. exact flat_flush. Qed.
+Print Assumptions C07_op_flush.
+
+Theorem C07_op_rotate : forall s c, cur s = Some c -> flat (rotate s) = c ++ buf s.
+Proof. exact flat_rotate. Qed.
+Print Assumptions C07_op_rotate.
+
+Theorem C07_op_rotate_nothing : forall s, cur s = None -> rotate s = s.
+Proof. exact flat_rotate_none. Qed.
+Print Assumptions C07_op_rotate_nothing.
+
+Theorem C07_op_clear : forall s, flat (clear s) = [].
+Proof. exact flat_clear. Qed.
+Print Assumptions C07_op_clear.
+
+Theorem C07_op_set_config : forall s en ign cl, flat (set_config s en ign cl) = flat s.
+Proof. exact flat_set_config. Qed.
+Print Assumptions C07_op_set_config.
+
+Theorem C07_op_restart : forall s c,
+  flat (restart s c) = if file_enabled (cfg s) then flat s else on_disk s.
+Proof. exact flat_restart. Qed.
+Print Assumptions C07_op_restart.
+
+(** Offset paging and filters: for every limit >= 1, offset >= 0 and every
+    combination of criteria, the response is exactly the [limit] entries
+    following the first [offset] ones of the visible log filtered by the
+    criteria; the returned cursor is the time of the last entry of the page. *)
+Theorem C07_offset_paging : forall me bf s p,
+  0 < me <= bf -> wf me s -> p_older p = None ->
+  0 < p_limit p -> 0 <= p_offset p ->
+  (p_scan p <= 0 \/ lenZ (on_disk s) <= p_scan p) ->
+  exists o, search me bf s p = Ok (page s p) o /\
+            (page s p <> [] -> o = e_time (last (page s p) dflt)).
+Proof. exact search_spec. Qed.
+Print Assumptions C07_offset_paging.
+
+Theorem C07_page_is_slice : forall s p, 0 <= p_offset p -> 0 <= p_limit p ->
+  page s p = firstnZ (p_limit p) (skipnZ (p_offset p) (vis s p)).
+Proof. exact page_offset. Qed.
+Print Assumptions C07_page_is_slice.
+
+(** Consecutive pages tile the sequence: no gap, no duplicate. *)
+Theorem C07_pages_tile : forall (V : list entry) off lim, 0 <= off -> 0 <= lim ->
+  firstnZ lim (skipnZ off V) ++ skipnZ (off + lim) V = skipnZ off V.
+Proof. exact (@pages_tile entry). Qed.
+Print Assumptions C07_pages_tile.
+
+(** Search terms and status filters select exactly the entries that satisfy
+    them ([keep] spells out [p_match]: Model.QLog.term_match / status_match). *)
+Theorem C07_filters_exact : forall me bf s p,
+  0 < me <= bf -> wf me s -> p_older p = None -> p_offset p = 0 ->
+  0 < p_limit p -> lenZ (flatv s) <= p_limit p ->
+  (p_scan p <= 0 \/ lenZ (on_disk s) <= p_scan p) ->
+  exists o, search me bf s p = Ok (vis s p) o.
+Proof. exact search_all. Qed.
+Print Assumptions C07_filters_exact.
+
+Theorem C07_visible_iff : forall s p e,
+  In e (vis s p) <-> In e (flatv s) /\ keep (cfg s) p e = true.
+Proof. exact vis_In. Qed.
+Print Assumptions C07_visible_iff.
+
+(** The raw-line pre-match accepts every entry the full match accepts. *)
+Theorem C07_quickmatch_over_approximates : forall c e ks,
+  forallb (crit_match c e) ks = true -> forallb (crit_quick c e) ks = true.
+Proof. exact quick_of_match. Qed.
+Print Assumptions C07_quickmatch_over_approximates.
+
+(** No parameter value makes the request crash (in any state at all). *)
+Theorem C07_no_panic : forall me bf s q, handle me bf s q <> Panic.
+Proof. exact no_panic. Qed.
+Print Assumptions C07_no_panic.
